@@ -29,6 +29,8 @@ ISA['operand_sets']['spxi'] = {'operand_values': {
 ISA['instructions']['ldz'] = {'bytecode': {'value': 0xD, 'size': 4}, 'operands': {'count': 1, 'operand_sets': {'list': ['spxi']}}}
 ISA['instructions']['ldq'] = {'bytecode': {'value': 0xC, 'size': 4}, 'operands': {'count': 1, 'operand_sets': {'list': ['idx']}}}
 
+ISA['operand_sets']['dfr'] = {'operand_values': {'dn': {'type': 'deferred_numeric', 'bytecode': {'value': 6, 'size': 4}, 'argument': {'size': 16, 'byte_align': True}}}}
+ISA['instructions']['ldd'] = {'bytecode': {'value': 0xE, 'size': 4}, 'operands': {'count': 1, 'operand_sets': {'list': ['dfr']}}}
 # macros are invoked like instructions: anywhere on a line that holds several statements
 ISA['macros'] = {'push2': [{'operands': {'count': 1, 'operand_sets': {'list': ['imm']}}, 'instructions': ['n12 @ARG(0)', 'nop']}],
                  'swp': [{'instructions': ['push a', 'push b']}]}
@@ -62,6 +64,8 @@ CATALOGUE = [
     ('e', '.byte', ['"the: e: end"'], False),
     ('pth', '.cstr', ['"C:\\\\"'], False),           # the string ends in an escaped backslash: C:\\ 
     (None, '.byte', ['"q\\\\"'], False),
+    (None, 'ldd', [('dind', 'lab')], True),
+    (None, 'ldd', [('dind', 'lab+1')], True),
     # macro invocations (joined with other statements on one line like any instruction)
     (None, 'push2', ['5'], True),
     (None, 'swp', [], True),
@@ -110,7 +114,7 @@ def sites(prog, kind):
         elif kind == 'comma' and head not in SPACE_JOINED:
             out += [(i, k) for k in range(1, len(ops))]
         elif kind == 'bracket-padding':
-            out += [(i, k) for k, o in enumerate(ops) if isinstance(o, tuple) and o[0] in ('ireg', 'ind', 'xreg', 'iireg')]
+            out += [(i, k) for k, o in enumerate(ops) if isinstance(o, tuple) and o[0] in ('ireg', 'ind', 'dind', 'xreg', 'iireg')]
         elif kind in ('indent', 'blank-line', 'comment'):
             out.append(i)
         elif kind == 'label-own-line' and label and head:
@@ -146,6 +150,8 @@ def render(prog, choice):
                 elif o[0] == 'xreg':
                     r = o[1].upper() if up else o[1]
                     t = f'{r}{pad}+{pad}{o[2]}'
+                elif o[0] == 'dind':
+                    t = f'[{pad}[{pad}{o[1]}{pad}]{pad}]'          # a deferred operand: blanks between the brackets as well
                 else:
                     t = f'[{pad}{o[1]}{pad}]'
             else:
@@ -244,7 +250,7 @@ def meta(tier):
     q = tier == 'quick'
     return {
         'rule': 'base programs (plus programs about local regions, preprocessor lines, and statements that differ only in the letter case of a label or character literal): header + every single statement and every ordered pair (thorough: triples of the first 10) of a '
-                '32-statement catalogue (incl. macro invocations) (every instruction form of the probe ISA, data lines, labelled statements, an #include, .org, .align and #define line, operands that look '
+                '34-statement catalogue (incl. macro invocations, deferred operands) (every instruction form of the probe ISA, data lines, labelled statements, an #include, .org, .align and #define line, operands that look '
                 'like mnemonics or registers: label nop_x, constant A1) + footer; rewrites: for each kind (mnemonic case, register case, '
                 'token separator, comma spacing, bracket padding, indentation, blank lines, comments incl. ones containing a mnemonic '
                 'and a quote, label on its own line, instructions joined on one line) and each variant of the kind, every subset of the '
@@ -342,6 +348,8 @@ def shard(acc, tier, idx, n):
 
         for kind, variants in VARIANTS.items():
             ss = sites(prog, kind)[:6]
+            if q and kind == 'comment' and len(prog) > 4:
+                variants = variants[::3]        # quick tier, programs of two catalogue statements: the plain comment and the one with both quote characters
             for v in variants:
                 for r in range(1, len(ss) + 1):
                     for subset in itertools.combinations(ss, r):
